@@ -38,9 +38,9 @@ CHECKS = {
         technique=TECH + "every transition of closed / depth-bounded state graphs replayed against exact rational expectations with spec-supplied condition numbers",
         ref="6 (C03)"),
     "C04": dict(
-        text="For each of the 22 kinds and periods 1..3 (1..4 thorough) TLC explores every reachable state of the implementation-shaped model -- every "
+        text="For each of the 22 kinds (periods 1..2 over {1,2,3}+spike+tokens and period 3 over a two-letter alphabet in the quick tier; periods 1..4 in the thorough tier) TLC explores every reachable state of the implementation-shaped model -- every "
              "ring content, cursor and counter position, including states tainted by NaN/+-inf/f64::MAX and a 10^6 spike, and states after earlier resets -- "
-             "and from EVERY such state explores reset() followed by four continuations of n+2 fresh values; the transcribed field-by-field reset is checked to "
+             "and from EVERY such state explores reset() followed by two (thorough: four) continuations of n+2 fresh values, keeping the history in the view so that these runs are not merged with the run from the initial state; the invariant ResetToInit (the transcribed reset re-creates exactly the state the transcribed new creates) is checked too; the transcribed field-by-field reset is checked to "
              "refine the fresh reference for all continuations; every transition is replayed: the real instance after reset() is compared step by step with a "
              "newly constructed real instance (1e-12 relative) and with the exact value, and period/multiplier/Display are compared before and after; plus "
              "seeded deep histories of thousands of operations with non-finite values and repeated resets.",
@@ -50,14 +50,15 @@ CHECKS = {
         ref="6 (C04)"),
     "C05": dict(
         text="TLC enumerates, per kind, every interleaving (no state merging, depth-bounded) of operations on an original, a clone taken at any point, an unrelated "
-             "instance with another period and a late fresh instance, and a clone taken at EVERY reachable state of the closed model followed by interleaved "
-             "continuations; the behaviours are executed on 16 real threads and any two real instances with the same configuration and literal history must "
+             "instance with another period and a late fresh instance, and a clone taken at EVERY reachable state of the closed model (periods 1..3) followed by interleaved "
+             "continuations; a seeded multi-threaded driver additionally records a trace of the real crate on 16 threads which TLC validates against TaTrace.tla; "
+             "the behaviours are executed on 16 real threads and any two real instances with the same configuration and literal history must "
              "return bit-identical outputs -- within a behaviour, across behaviours and across threads -- and equal the specification's value.",
         note="Thread schedules are observed, not controlled; instances are never shared between threads (the API needs &mut self).",
         technique=TECH + "all interleavings of short multi-instance op sequences replayed on 16 threads with a cross-behaviour determinism map keyed by configuration and history",
         ref="6 (C05)"),
     "C06": dict(
-        text="From EVERY reachable state of the closed model of each of the 22 kinds (fresh, warming up, full, wrapped, just reset; periods 1..3, 1..4 thorough) "
+        text="From EVERY reachable state of the closed model of each of the 22 kinds (fresh, warming up, full, wrapped, just reset; periods 1..3 in the quick tier with a two-letter alphabet for period 3, 1..4 thorough) "
              "TLC explores serialize + deserialize (once or twice in a row) followed by continuations fed to the original and all copies; the real crate is "
              "round-tripped through bincode at exactly those points: copies must agree within 1e-12 relative on every continuation step, keep "
              "Display/period/multiplier, stay under the size bound and equal the exact value; plus seeded long histories with random checkpoints after which all "
@@ -103,7 +104,8 @@ CHECKS = {
              "and period 1..2 (1..3), and executes scripted runs of 3*period+3 calls for every period 1..64 (plus sampled up to 4096) with faults injected at varying "
              "cursor positions followed by reset and reuse; the spec invariant Safe (every ring index and counter in bounds in the transcribed algorithm) holds on "
              "all of them, and in the real crate -- built with overflow checks and debug assertions -- next, reset, clone, Display, Debug, bincode and serde_json "
-             "must return normally after every op (catch_unwind).",
+             "must return normally after every op (catch_unwind); the index invariant of the ring cursor / counters is proved for EVERY period by TLAPS "
+             "(spec/Cursor.tla, 17 obligations) and a trace of the real crate recorded by a fault-injecting driver on 8 threads is validated by TLC against TaTrace.tla.",
         note="Absence of panic and termination are what is observed; the cursor invariant for arbitrary periods is additionally stated in spec/Cursor.tla.",
         technique=TECH + "fault-sequence enumeration by TLC with index-safety invariant, replayed under catch_unwind with a returns-suite after every op",
         ref="6 (C12)"),
